@@ -1,13 +1,13 @@
 use pavex::{Blueprint, Response};
-// C01 witness (fixed): the fallback error handler takes T1 by value, an error observer borrows T1. The observers'
+// C01 witness: the fallback error handler takes T1 by value, an error observer borrows T1. The observers'
 // calls are emitted after the handler ran (right in front of its IntoResponse), but nothing in the call graph
 // says so: the SDK is accepted and does not compile (E0382, borrow of moved value).
-pub struct T0; pub struct T1;
+pub struct T0; #[derive(Clone)] pub struct T1;
 #[derive(Debug)] pub struct E0;
 impl std::fmt::Display for E0 { fn fmt(&self, f: &mut std::fmt::Formatter<'_>) -> std::fmt::Result { write!(f, "E0") } }
 impl std::error::Error for E0 {}
 #[pavex::request_scoped(id = "__MODU___C0")] pub fn c0() -> Result<T0, E0> { Ok(T0) }
-#[pavex::request_scoped(id = "__MODU___C1")] pub fn c1() -> T1 { T1 }
+#[pavex::request_scoped(id = "__MODU___C1", clone_if_necessary)] pub fn c1() -> T1 { T1 }
 #[pavex::error_handler(id = "__MODU___X0", default = false)]
 pub fn x0(#[px(error_ref)] _e: &pavex::Error, _a: T1) -> Response { Response::internal_server_error() }
 #[pavex::error_observer(id = "__MODU___O0")] pub fn o0(_e: &pavex::Error, _a: &T1) {}
